@@ -43,22 +43,29 @@ func TestVerifSlowListenerStallsHub(t *testing.T) {
 	}
 }
 
-// CLOSED-TEST: Close with an event still buffered consumes it and neither unregisters nor closes.
+// CLOSED-TEST: Close with an event still buffered must still unregister the listener. (Before
+// the fix Close consumed the buffered event, concluded "already closed" and left the listener
+// registered: the following dispatches fill its buffer and wedge the hub.)
 func TestVerifCloseWithBufferedEvent(t *testing.T) {
 	hub, cancel := startHub(t)
 	defer cancel()
 	ml := newMsgListenerV2(hub, "")
 	hub.Dispatch(event.MessageMetadata{Mailbox: "m", ID: "1"})
 	hub.Sync()
-	ml.Close() // takes the buffered event, concludes "already closed"
-	select {
-	case _, ok := <-ml.c:
-		if !ok {
-			return // closed as it should be
-		}
-	default:
+	ml.Close()
+	for i := 0; i < 150; i++ {
+		hub.Dispatch(event.MessageMetadata{Mailbox: "m", ID: "x"})
 	}
-	t.Fatal("Close() with a buffered event did not close the listener channel (and did not call RemoveListener)")
+	synced := make(chan struct{})
+	go func() { hub.Sync(); close(synced) }()
+	select {
+	case <-synced:
+	case <-time.After(2 * time.Second):
+		t.Fatal("Close() with a buffered event left the listener registered: the hub is blocked on its full buffer")
+	}
+	if n := len(ml.c); n > 1 {
+		t.Fatalf("closed listener still received %d events", n)
+	}
 }
 
 // CLOSE-RACE: an event dispatched before the listener's removal is processed is sent on the
